@@ -379,13 +379,18 @@ def harnesses(tier):
     for cls in ('monoidal', 'rigid'):
         for op in ('dagger', 'slices', 'interchange', 'normal_form',
                    'foliation', 'functor', 'tensor_then'):
-            k, w, a, L = (2, 2, 1, 2) if q else (3, 3, 2, 2)
+            k, w, a, L = (2, 2, 1, 2) if q else (2, 3, 2, 2)
             if q and op == 'slices':
                 continue        # quick: slices are covered by Mode B + catA
             if op in ('slices', 'tensor_then', 'functor'):
                 k, w = (1, 2) if q else (2, 2)
+            if not q and op in ('interchange', 'normal_form'):
+                k, w, a = 3, 2, 1
+            if not q and op == 'tensor_then':
+                k, w, a = 1, 2, 2
             if cls == 'rigid' and not q:
-                w = 2
+                k, w, a = (2, 2, 2) if op not in ('tensor_then', 'slices') \
+                    else (1, 2, 2)
             hs.append(H("opsA_%s_%s" % (cls, op), opsA,
                         dict(cls=cls, op=op, k=k, w=w, a=a, L=L),
                         FUNCS_CORE + [
@@ -429,9 +434,11 @@ def harnesses(tier):
                     outside="wider types, other winding numbers",
                     timeout_s=T))
     for cls in ('circuit', 'zx', 'tensor', 'biclosed', 'cartesian'):
-        k, w = (2, 3) if q else (3, 4)
+        k, w = (2, 3) if q else (2, 4)
         if cls in ('circuit', 'zx'):
             k, w = (2, 2) if q else (2, 3)
+        if cls in ('circuit', 'tensor', 'cartesian') and not q:
+            k, w = (2, 2) if cls == 'circuit' else (2, 3)
         hs.append(H("poolA_%s" % cls, poolA, dict(cls=cls, k=k, w=w),
                     ["discopy.cat.Arrow.__getitem__",
                      "discopy.monoidal.Diagram.__getitem__",
